@@ -413,12 +413,17 @@ def judge_model(P, r, mobs, skip):
         F.append(Finding('model', 'corr_C12_' + rel, what, ln, q))
     ev = {k: [] for k in range(P.np)}
     entries = {k: [] for k in range(P.np)}
+    mdata = {k: [] for k in range(P.np)}        # model: bytes handed to each replayed iput, in replay order
     for m in mobs:
         tag = m[0]
         if tag == 10:
             ev[m[1]].append(('I', m[2]))
         elif tag == 11:
             ev[m[1]].append(('W', m[2], m[3]))
+        elif tag == 12:
+            mdata[m[1]].append((m[2], m[3:]))
+        elif tag == 13:
+            mm('spin', 'model: batch loop of rank %d does not terminate' % m[1])
         elif tag == 20:
             o = r.bb.get((m[1], m[2]))
             if o is None or len(o) < 3 or int(o[2]) != m[3]:
@@ -485,6 +490,27 @@ def judge_model(P, r, mobs, skip):
                 want = expected_trace_line(P, e[1])
                 if g != want:
                     mm('trace', 'rank %d call %d: library %s, model replays line %d = %s' % (k, i, ' '.join(g)[:160], e[1], ' '.join(want)[:160])); break
+    # data-log reading: the bytes each replayed iput is given (model: flush_data over the rank's log, cancelled entries
+    # included) against the bytes the library handed to ncmpio
+    for k in range(P.np):
+        calls = [g for g in r.trace.get(k, []) if g[0] in ('I', 'N')]
+        if len(calls) != len(mdata[k]):
+            if not any(f.key == 'corr_C12_trace' for f in F):
+                mm('data', 'rank %d: library replayed %d entries, model %d' % (k, len(calls), len(mdata[k])))
+            continue
+        cache = {}
+        for i, (g, (ln, cells)) in enumerate(zip(calls, mdata[k])):
+            want = bytearray()
+            for c in cells:
+                l, ix = c // 65536, c % 65536
+                if l not in cache:
+                    a = P.ann[l]
+                    cache[l] = b''.join(O.mem_bytes(a['p']['memk'], x) for x in a['vals'])
+                want.append(cache[l][ix] if ix < len(cache[l]) else 0)
+            got = '' if g[-1] == '-' else g[-1]
+            if got != bytes(want).hex():
+                mm('data', 'rank %d replay %d (entry of line %d): library hands ncmpio %s, model %s' % (k, i, ln, got[:80], bytes(want).hex()[:80]))
+                break
     # retained metadata log
     if not P.cfg.delete and r.bb_rc == 0:
         ncid = None
@@ -553,7 +579,9 @@ def make_programs(ctx, n_random):
             ('rounds', 4, 16, False, True, []), ('rounds', 4, 0, True, False, []),
             ('retain', 1, 0, False, False, []), ('retain', 2, 8, True, False, []), ('retain', 3, 1, False, False, []),
             ('retain', 2, 16, False, True, []), ('retain', 4, 8, True, True, []), ('retain', 3, 0, True, True, []),
-            ('waitmix', 2, 0, False, True, []), ('waitmix', 4, 16, True, False, [])]:
+            ('waitmix', 2, 0, False, True, []), ('waitmix', 4, 16, True, False, []),
+            ('cancelpat', 1, 0, False, True, []), ('cancelpat', 1, 24, False, False, []), ('cancelpat', 2, 4096, True, True, [(0, 7), (1, 30)]),
+            ('cancelpat', 2, 12, False, True, []), ('cancelpat4', 3, 0, False, True, []), ('cancelpat4', 3, 24, True, False, [])]:
         cfg = G.Cfg(np_, hint, shared, delete)
         P = G.Program(rng.fork('d%d' % di), cfg, directed=G.DIRECTED[name])
         progs.append(('d%02d-%s' % (di, name), P, flags)); di += 1
